@@ -1878,6 +1878,13 @@ def _install_pandas_models():
             cols = list(data.pairs)
         elif isinstance(data, dict):
             cols = list(data.items())
+        elif isinstance(data, list) and all(isinstance(r, dict) for r in data) and len(args) <= 1 and not (set(kwargs) - {'data'}):
+            # DataFrame(list of records): one row per record in list order, one column per key (pandas' business: dtypes, missing values)
+            interp.ctx.use(A('pandas.DataFrame.records', 'DataFrame(list of mappings) has one row per mapping in list order and one column per key in first-seen order'))
+            df = SDataFrame([], None)
+            df.records = [dict(r) for r in data]
+            df.owns_data = True
+            return df
         else:
             raise OutOfSubset('DataFrame of a non-mapping')
         df = SDataFrame(cols, kwargs.get('index'))
@@ -1968,6 +1975,9 @@ def call_method(interp, recv, name, args, kwargs, node=None):   # noqa: F811
         f.update(kwargs)
         return SObj(recv.cls, f, label=recv.label)
     if isinstance(recv, SObj) and name == '_asdict':
+        order = builtins.getattr(recv.cls, '_fields', None)       # a NamedTuple's _asdict() lists the fields in declaration order
+        if order is not None and set(order) == set(recv.fields):
+            return {k: recv.fields[k] for k in order}
         return dict(recv.fields)
     if isinstance(recv, SStr) and name == 'split' and args and args[0] == '=' and kwargs.get('maxsplit', args[1] if len(args) > 1 else None) == 1:
         ctx = interp.ctx
